@@ -1,3 +1,4 @@
 pub mod linalg;
 pub mod oracle;
 pub mod pipeline;
+pub mod challenger;
